@@ -126,3 +126,33 @@ def make_plugin(w, clear_after=False, may_shrink=False, g90e=False, enter=None, 
 def events(w):
     import octoprint.events
     return octoprint.events.Events
+
+
+FILE_A = {"name": "a.gcode", "path": "a.gcode", "origin": "local", "size": 1, "owner": "u", "user": "u"}
+FILE_B = {"name": "b.gcode", "path": "sub/b.gcode", "origin": "local", "size": 2, "owner": "u", "user": "u"}
+FILE_SD = {"name": "c.gco", "path": "c.gco", "origin": "sdcard", "size": 3, "owner": "u", "user": "u"}
+
+
+def payload_for(event_name, file=None):
+    """Payload OctoPrint delivers with an event (shape as documented for OctoPrint 1.4+)."""
+    f = dict(file or FILE_A)
+    if event_name in ("PRINT_STARTED", "PRINT_PAUSED", "PRINT_RESUMED", "FILE_SELECTED"):
+        return f
+    if event_name == "PRINT_DONE":
+        return dict(f, time=12.5)
+    if event_name in ("PRINT_FAILED",):
+        return dict(f, time=3.0, reason="cancelled")
+    if event_name in ("PRINT_CANCELLING",):
+        return dict(f, firmwareError=None)
+    if event_name in ("PRINT_CANCELLED",):
+        return dict(f, time=3.0, position={})
+    if event_name == "ERROR":
+        return {"error": "Printer halted"}
+    if event_name == "SETTINGS_UPDATED":
+        return {"config_hash": "x", "effective_hash": "y"}
+    return {}
+
+
+def fire(plugin, event_name, file=None):
+    import octoprint.events
+    plugin.on_event(getattr(octoprint.events.Events, event_name), payload_for(event_name, file))
